@@ -389,6 +389,11 @@ where
     if machine_id > ZXST_MID_128K {
         return Err(SnapshotLoadError::MachineNotSupported.into());
     }
+    // Memory layouts of 48K and 128K snapshots are not interchangeable
+    let is_128k_snapshot = machine_id == ZXST_MID_128K;
+    if is_128k_snapshot != (emulator.settings.machine == ZXMachine::Sinclair128K) {
+        return Err(SnapshotLoadError::MachineNotSupported.into());
+    }
 
     // ZXST Block Header
     asset.seek(SeekFrom::Start(cursor_pos))?;
